@@ -54,6 +54,9 @@ func SeqOf(e *Sort) *Sort    { return &Sort{Kind: KSeq, Elem: e} }
 func ArrOf(e *Sort) *Sort    { return &Sort{Kind: KArr, Elem: e} }
 func MapOf(k, v *Sort) *Sort { return &Sort{Kind: KMap, Key: k, Elem: v} }
 
+// ArrKV: an SMT array with an arbitrary index sort (ghost relations)
+func ArrKV(k, v *Sort) *Sort { return &Sort{Kind: KArr, Key: k, Elem: v} }
+
 func (s *Sort) SMT() string {
 	switch s.Kind {
 	case KInt:
@@ -71,6 +74,9 @@ func (s *Sort) SMT() string {
 	case KSeq:
 		return "(GSeq " + s.Elem.SMT() + ")"
 	case KArr:
+		if s.Key != nil {
+			return "(Array " + s.Key.SMT() + " " + s.Elem.SMT() + ")"
+		}
 		return "(Array Int " + s.Elem.SMT() + ")"
 	case KMap:
 		return "(GMap " + s.Key.SMT() + " " + s.Elem.SMT() + ")"
@@ -88,7 +94,12 @@ func (s *Sort) Eq(o *Sort) bool {
 		return false
 	}
 	switch s.Kind {
-	case KSeq, KArr:
+	case KArr:
+		if (s.Key == nil) != (o.Key == nil) || (s.Key != nil && !s.Key.Eq(o.Key)) {
+			return false
+		}
+		return s.Elem.Eq(o.Elem)
+	case KSeq:
 		return s.Elem.Eq(o.Elem)
 	case KMap:
 		return s.Key.Eq(o.Key) && s.Elem.Eq(o.Elem)
